@@ -170,7 +170,109 @@ fn release_scn(d: Dyn, q: Option<u32>, t: Option<u32>) -> Scn {
   })
 }
 
+#[derive(Clone, Copy, Debug, PartialEq)]
+enum Sched {
+  SubscribeOn,
+  ObserveOn,
+  Debounce,
+  Delay,
+  Timeout,
+}
+#[derive(Clone, Copy, Debug, PartialEq)]
+enum Dead {
+  /// `error(7).merge(&[x])`: x is subscribed with an observer that has already ended
+  MergeAfterError,
+  /// `x.take_until(just(0))`: the trigger fires during the subscription, before x is subscribed
+  TakeUntilJust,
+  /// `just(0).amb(&[x])`: the race is over before x is subscribed
+  AmbAfterJust,
+}
+
+/// C17: a scheduler-based operator that is subscribed with a subscriber that has already ended
+/// (the other input of a combining operator ended the stream synchronously) - everything it owns
+/// is released all the same once the handles are gone
+fn dead_release_scn(k: Sched, how: Dead, q: Option<u32>, t: Option<u32>) -> Scn {
+  let name = format!("c17/{:?} subscribed with a subscriber that has already ended ({:?}), then silence", k, how);
+  scn(&name, "release-of-a-dead-subscription", q, t, move || {
+    let rec = Rec::new();
+    let owners: Arc<Mutex<Vec<(String, usize)>>> = Arc::new(Mutex::new(vec![]));
+    let (rec2, ow2) = (rec.clone(), owners.clone());
+    let body: Body = Box::new(move || {
+      let tok_op = Arc::new(());
+      let tok_item = Arc::new(());
+      let tok_sub = Arc::new(());
+      {
+        let a = Hot::<i64>::new();
+        let t1 = tok_op.clone();
+        let ti = tok_item.clone();
+        // a stored item (start_with) and an operator closure above the source
+        let first = a.observable().start_with([1i64].into_iter()).map(move |x| {
+          let _ = (&t1, &ti);
+          x
+        });
+        let nt = || schedulers::new_thread_scheduler();
+        let x: Observable<'static, i64> = match k {
+          Sched::SubscribeOn => first.subscribe_on(nt()),
+          Sched::ObserveOn => first.observe_on(nt()),
+          Sched::Debounce => first.debounce(ms(3), nt()),
+          Sched::Delay => first.delay(ms(3)),
+          Sched::Timeout => first.timeout(ms(3), nt()),
+        };
+        let o: Observable<'static, i64> = match how {
+          Dead::MergeAfterError => observables::error(err(7)).merge(&[x]),
+          Dead::TakeUntilJust => x.take_until(observables::just(0i64)),
+          Dead::AmbAfterJust => observables::just(0i64).amb(&[x]),
+        };
+        let ts = tok_sub.clone();
+        let r3 = rec2.clone();
+        let r4 = rec2.clone();
+        let r5 = rec2.clone();
+        let sub = o.subscribe(
+          move |x| {
+            let _ = &ts;
+            r3.cb(EvK::Next(x))
+          },
+          move |_| r4.cb(EvK::Error(7)),
+          move || r5.cb(EvK::Complete),
+        );
+        drop(o);
+        thread::sleep(ms(10));
+        drop(sub);
+      }
+      thread::sleep(ms(10));
+      let mut o = ow2.lock().unwrap();
+      for (n, t) in [("closure of the pipeline above the scheduler-based operator", &tok_op), ("subscriber callback", &tok_sub)] {
+        if Arc::strong_count(t) > 1 {
+          o.push((n.to_string(), Arc::strong_count(t) - 1));
+        }
+      }
+      let _ = &tok_item;
+    });
+    let check: Check = Box::new(move |e: &ExecEnd| {
+      let mut v = base_violations(e, &[]);
+      let o = owners.lock().unwrap();
+      if !o.is_empty() {
+        v.push(viol("still-owned-after-the-end", format!("after the stream had ended, all threads came to rest and every handle was dropped these still have owners: {:?}", *o)));
+      }
+      Verdict { outcome: format!("{} | owners {:?} | {}", rec.short(), *o, thread_summary(e)), violations: v }
+    });
+    (body, check)
+  })
+}
+
 pub fn release_scenarios() -> Vec<Scn> {
+  let mut v = release_scenarios_late();
+  // (delay and timeout start no thread for a subscriber that has already ended: nothing to explore)
+  for k in [Sched::SubscribeOn, Sched::ObserveOn, Sched::Debounce] {
+    for how in [Dead::MergeAfterError, Dead::TakeUntilJust, Dead::AmbAfterJust] {
+      let quick = how == Dead::MergeAfterError || k == Sched::SubscribeOn;
+      v.push(dead_release_scn(k, how, if quick { Some(1) } else { None }, Some(2)));
+    }
+  }
+  v
+}
+
+fn release_scenarios_late() -> Vec<Scn> {
   vec![
     release_scn(Dyn::FlatMap, Some(2), Some(4)),
     release_scn(Dyn::Concat, Some(2), Some(4)),
